@@ -271,6 +271,8 @@ class Func:
 
 def callee(t):
     """Normalised resolved callee of a call terminator (None for indirect calls)."""
+    if not t:
+        return None
     f = t.get("fn")
     if not f:
         return None
@@ -278,6 +280,8 @@ def callee(t):
 
 
 def callee_decl(t):
+    if not t:
+        return None
     f = t.get("fn")
     if not f:
         return None
